@@ -1,7 +1,7 @@
 """C05 -- no orphaned or doubly-finished multipart uploads."""
 import z3
 
-from pyvc.contracts import Any, Bool, ExtSpec, ExtT, Int, ListOfT, LoopSpec, ObjT, OptT, Str
+from pyvc.contracts import Any, Bool, ExtSpec, ExtT, Int, ListOfT, LoopSpec, MapT, ObjT, OptT, Str
 from pyvc.values import ExtMethod, Opaque, Ref, U
 
 from .a_common import F
@@ -17,6 +17,11 @@ def resp_item(eng, st, recv, args, kwargs):
     if not isinstance(k, str):
         raise TypeError('response key')
     return Opaque(resp_get(recv.term, z3.StringVal(k)), kind='respval', label=f'{recv.label}[{k!r}]')
+
+
+def _map_view(st, v):
+    h = st.obj(v)
+    return h.meta['present'], h.meta['vals']
 
 
 def same_term(a, b):
@@ -43,9 +48,20 @@ def register(R):
             ok_reg = (isinstance(fn, ExtMethod) and fn.self_val is c.a_client and fn.name == 'abort_multipart_upload'
                       and kw.get('Bucket') is c.a_bucket and kw.get('Key') is c.a_key
                       and isinstance(uid, Opaque) and z3.eq(uid.term, resp_get(cr[0].result.term, z3.StringVal('UploadId')))
-                      and set(kw) == {'Bucket', 'Key', 'UploadId'} and env['args'] == ()
-                      and index_of(tr, cr[0]) < index_of(tr, reg[0]))
+                      and {'Bucket', 'Key', 'UploadId'} <= set(kw) <= {'Bucket', 'Key', 'UploadId', 'RequestPayer', 'ExpectedBucketOwner'}
+                      and env['args'] == () and index_of(tr, cr[0]) < index_of(tr, reg[0]))
+            # C15: the abort carries exactly the user's RequestPayer / ExpectedBucketOwner
+            pres, vals = _map_view(c.old.st, c.a_extra_args)
+            fwd = []
+            for name in ('RequestPayer', 'ExpectedBucketOwner'):
+                has = z3.Select(pres, z3.StringVal(name))
+                if name in kw:
+                    fwd.append(z3.And(has, kw[name].term == z3.Select(vals, z3.StringVal(name))))
+                else:
+                    fwd.append(z3.Not(has))
+            abort_args = z3.And(fwd)
         return {
+            'abort_carries_the_users_request_payer_and_bucket_owner': (abort_args if (len(cr) == 1 and len(reg) == 1) else B(False), ['C15', 'C05']),
             'one_create_request': B(len(cr) == 1 and cr[0].kwargs.get('Bucket') is c.a_bucket and cr[0].kwargs.get('Key') is c.a_key),
             'abort_registered_for_the_received_id_before_return': B(bool(ok_reg)),
             'returns_the_received_id': B(isinstance(c.result, Opaque) and len(cr) == 1 and z3.eq(
@@ -54,7 +70,7 @@ def register(R):
 
     R.contract(
         f'{T}:CreateMultipartUploadTask._main', props=['C05', 'C15'],
-        params=dict(client=ExtT('client'), bucket=ExtT('str'), key=ExtT('str'), extra_args=ExtT('kwargs')),
+        params=dict(client=ExtT('client'), bucket=ExtT('str'), key=ExtT('str'), extra_args=MapT('Str', Any)),
         checks=create_checks,
         raises={'Exception': lambda c: {
             # the only way out by exception is a failing create request: no id was received
